@@ -16,7 +16,30 @@ REPO = os.environ.get('VERIF_REPO', '/repo')
 VERIF = os.path.dirname(os.path.dirname(os.path.abspath(__file__)))
 CACHE = os.path.join(VERIF, '.cache')
 
-W2C2_DEFS = ['-DHAS_PTHREAD=1', '-DHAS_UNISTD=1', '-DHAS_GETOPT=1', '-DHAS_LIBGEN=1', '-DHAS_STRDUP=1', '-DHAS_GLOB=1']
+def _project_feature_defs():
+    """the feature macros the project's own build defines on a POSIX host (w2c2/CMakeLists.txt: HAS_X=1 for every feature its
+    configure checks find; libdwarf is not installed here) - read from the tree under test, so that a change which renames or
+    adds a feature macro together with its build files is built the way the project builds it"""
+    fallback = ['-DHAS_PTHREAD=1', '-DHAS_UNISTD=1', '-DHAS_GETOPT=1', '-DHAS_LIBGEN=1', '-DHAS_STRDUP=1', '-DHAS_GLOB=1']
+    try:
+        import re as _re
+        txt = open(os.path.join(REPO, 'w2c2', 'CMakeLists.txt')).read()
+        names = []
+        for mt in _re.finditer(r'target_compile_definitions\(\$\{TARGET\}\s+PUBLIC\s+(HAS_[A-Z0-9_]+)=1\)', txt):
+            if 'DWARF' not in mt.group(1) and mt.group(1) not in names:
+                names.append(mt.group(1))
+        if 'HAS_PTHREAD' not in names or len(names) < 4:
+            return fallback
+        return ['-D%s=1' % n for n in names]
+    except OSError:
+        return fallback
+
+
+W2C2_DEFS = _project_feature_defs()
+
+
+def _without(feature):
+    return [d for d in W2C2_DEFS if d != '-D%s=1' % feature]
 
 # The project's own build files compile everything as C90 (CMAKE_C_STANDARD 90 -> -std=gnu90; the Makefile uses -std=c89), so the
 # variants do the same: code that depends on the language level (macros such as FLT_DECIMAL_DIG, inline, ...) takes the branch
@@ -29,15 +52,15 @@ VARIANTS = {
                        '-fno-omit-frame-pointer'], None, ['-lpthread', '-lm']),
     'msan': ('clang', ['-O1', '-g', '-w', '-fsanitize=memory', '-fno-omit-frame-pointer'], None, ['-lpthread', '-lm']),
     'nopthread': ('gcc', ['-O1', '-g0', '-w', STD],
-                  ['-DHAS_UNISTD=1', '-DHAS_GETOPT=1', '-DHAS_LIBGEN=1', '-DHAS_STRDUP=1', '-DHAS_GLOB=1'], ['-lm']),
+                  _without('HAS_PTHREAD'), ['-lm']),
     'nogetopt': ('gcc', ['-O1', '-g0', '-w', STD],
-                 ['-DHAS_PTHREAD=1', '-DHAS_UNISTD=1', '-DHAS_LIBGEN=1', '-DHAS_STRDUP=1', '-DHAS_GLOB=1'],
+                 _without('HAS_GETOPT'),
                  ['-lpthread', '-lm']),
     'nolibgen': ('gcc', ['-O1', '-g0', '-w', STD],
-                 ['-DHAS_PTHREAD=1', '-DHAS_UNISTD=1', '-DHAS_GETOPT=1', '-DHAS_STRDUP=1', '-DHAS_GLOB=1'],
+                 _without('HAS_LIBGEN'),
                  ['-lpthread', '-lm']),
     'nostrdup': ('gcc', ['-O1', '-g0', '-w', STD],
-                 ['-DHAS_PTHREAD=1', '-DHAS_UNISTD=1', '-DHAS_GETOPT=1', '-DHAS_LIBGEN=1', '-DHAS_GLOB=1'],
+                 _without('HAS_STRDUP'),
                  ['-lpthread', '-lm']),
     'bigendian': ('gcc', ['-O1', '-g0', '-w', STD, '-DWASM_ENDIAN=1'], None, ['-lpthread', '-lm']),
     'vsched': ('gcc', ['-O1', '-g0', '-w', STD], None, ['-lpthread', '-lm']),
@@ -166,7 +189,7 @@ def w2c2_binary(variant='plain', extra_link=None, extra_name=''):
         # the .gcda counters) stay in VERIF_COVDIR; never used by a registered check
         cd = cov
         extra_name += '-cov'
-    extra_name += '-' + hashlib.sha256(repr(VARIANTS[variant]).encode()).hexdigest()[:6]
+    extra_name += '-' + hashlib.sha256(repr((VARIANTS[variant], W2C2_DEFS)).encode()).hexdigest()[:6]
     out = os.path.join(cd, 'w2c2-' + variant + extra_name)
     if os.path.exists(out):
         os.utime(cd)
